@@ -27,6 +27,11 @@ struct Sched {
     current: Option<usize>,
     status: Vec<Status>,
     woken: Vec<bool>,
+    /// wake-ups delivered by threads outside the baton (actors, I/O workers); they only take
+    /// effect when no baton thread is runnable, so they cannot perturb the explored schedule
+    ext_woken: Vec<bool>,
+    /// the scheduler chose to let the outside world act first although a baton thread could run
+    idling: bool,
     names: Vec<String>,
     abort: bool,
     deadlock: Option<Vec<String>>,
@@ -40,6 +45,9 @@ struct Shared {
     cv: Condvar,
     ch: Chooser,
     horizon: u64,
+    /// how long to wait for an external wake-up before a state with no runnable thread is
+    /// declared a deadlock (None: immediately)
+    external_grace: Option<std::time::Duration>,
 }
 
 /// Payload used to unwind threads of an aborted (deadlocked / over-horizon) execution.
@@ -74,17 +82,48 @@ impl Shared {
         self.m.lock().unwrap_or_else(|e| e.into_inner())
     }
 
-    /// Pick the successor when the current thread cannot continue. Returns false on deadlock/all done.
+    /// Pick the successor when the current thread cannot continue.
     fn hand_over(&self, g: &mut Sched, from: usize, why: &str) {
-        let runnable: Vec<usize> = (0..g.status.len()).filter(|i| g.status[*i] == Status::Runnable).collect();
+        let mut runnable: Vec<usize> = (0..g.status.len()).filter(|i| g.status[*i] == Status::Runnable).collect();
+        if runnable.is_empty() {
+            // external wake-ups that arrived meanwhile take effect now, in id order
+            for i in 0..g.status.len() {
+                if g.ext_woken[i] && g.status[i] == Status::Blocked {
+                    g.ext_woken[i] = false;
+                    g.woken[i] = true;
+                    g.status[i] = Status::Runnable;
+                    runnable.push(i);
+                }
+            }
+        }
         if runnable.is_empty() {
             if g.status.iter().any(|s| *s == Status::Blocked) {
+                if self.external_grace.is_some() {
+                    // nobody under the baton can run: wait for the outside world (see wait_for_baton)
+                    g.current = None;
+                    g.trace.push(format!("{}:{why}->(waiting for external wake-up)", g.names[from]));
+                    self.cv.notify_all();
+                    return;
+                }
                 let who = (0..g.status.len()).filter(|i| g.status[*i] == Status::Blocked).map(|i| g.names[i].clone()).collect();
                 g.deadlock = Some(who);
                 g.abort = true;
             }
             g.current = None;
         } else {
+            // With threads parked on the outside world, "nobody under the baton runs until the
+            // outside world has answered" is a schedule of its own (the runnable threads are simply
+            // slow); it costs one deviation.
+            if self.external_grace.is_some() && g.status.iter().any(|s| *s == Status::Blocked) {
+                let w = self.ch.choose(2, "run-or-wait-external");
+                if w == 1 {
+                    g.idling = true;
+                    g.current = None;
+                    g.trace.push(format!("{}:{why}->(runnable threads delayed until an external wake-up)", g.names[from]));
+                    self.cv.notify_all();
+                    return;
+                }
+            }
             let k = self.ch.choose_free(runnable.len(), "next-thread");
             g.current = Some(runnable[k]);
             g.switches += 1;
@@ -94,6 +133,7 @@ impl Shared {
     }
 
     fn wait_for_baton(&self, mut g: std::sync::MutexGuard<'_, Sched>, id: usize) {
+        let mut idle_since: Option<std::time::Instant> = None;
         loop {
             if g.abort {
                 drop(g);
@@ -102,9 +142,57 @@ impl Shared {
             if g.current == Some(id) {
                 return;
             }
+            if g.current.is_none() && (g.idling || g.status.iter().all(|s| *s != Status::Runnable)) && g.status.iter().any(|s| *s == Status::Blocked) {
+                // everybody under the baton is parked: an external wake-up may release one of us
+                if let Some(i) = (0..g.status.len()).find(|i| g.ext_woken[*i] && g.status[*i] == Status::Blocked) {
+                    g.ext_woken[i] = false;
+                    g.woken[i] = true;
+                    g.status[i] = Status::Runnable;
+                    g.current = Some(i);
+                    g.idling = false;
+                    g.switches += 1;
+                    let line = format!("(external wake-up)->{}", g.names[i]);
+                    g.trace.push(line);
+                    self.cv.notify_all();
+                    continue;
+                }
+                let mut grace = self.external_grace.unwrap_or_default();
+                if g.idling {
+                    grace = grace.min(std::time::Duration::from_millis(400));
+                }
+                let since = *idle_since.get_or_insert_with(std::time::Instant::now);
+                if since.elapsed() >= grace && g.idling {
+                    // nothing came from outside: the delayed threads run after all
+                    g.idling = false;
+                    if let Some(i) = (0..g.status.len()).find(|i| g.status[*i] == Status::Runnable) {
+                        g.current = Some(i);
+                        g.switches += 1;
+                        let line = format!("(no external wake-up)->{}", g.names[i]);
+                        g.trace.push(line);
+                        self.cv.notify_all();
+                        continue;
+                    }
+                }
+                if since.elapsed() >= grace {
+                    let who = (0..g.status.len()).filter(|i| g.status[*i] == Status::Blocked).map(|i| g.names[i].clone()).collect();
+                    g.deadlock = Some(who);
+                    g.abort = true;
+                    self.cv.notify_all();
+                    continue;
+                }
+                let (g2, _) = self.cv.wait_timeout(g, std::time::Duration::from_millis(20)).unwrap_or_else(|e| e.into_inner());
+                g = g2;
+                continue;
+            }
+            idle_since = None;
             g = self.cv.wait(g).unwrap_or_else(|e| e.into_inner());
         }
     }
+}
+
+thread_local! {
+    /// set on threads that run under the baton
+    static UNDER_BATON: std::cell::Cell<bool> = const { std::cell::Cell::new(false) };
 }
 
 impl ThreadCtx {
@@ -155,9 +243,15 @@ impl ThreadCtx {
             }
             fn wake_by_ref(self: &Arc<Self>) {
                 let mut g = self.sh.lock();
-                g.woken[self.id] = true;
-                if g.status[self.id] == Status::Blocked {
-                    g.status[self.id] = Status::Runnable;
+                if UNDER_BATON.with(|b| b.get()) {
+                    g.woken[self.id] = true;
+                    if g.status[self.id] == Status::Blocked {
+                        g.status[self.id] = Status::Runnable;
+                    }
+                } else {
+                    // from a thread outside the baton: deferred until nobody else can run
+                    g.ext_woken[self.id] = true;
+                    self.sh.cv.notify_all();
                 }
             }
         }
@@ -178,6 +272,10 @@ impl ThreadCtx {
             if g.abort {
                 drop(g);
                 resume_unwind(Box::new(Aborted));
+            }
+            if g.ext_woken[self.id] {
+                g.ext_woken[self.id] = false;
+                g.woken[self.id] = true;
             }
             if g.woken[self.id] {
                 // woken during its own poll: poll again (bounded)
@@ -200,12 +298,25 @@ impl ThreadCtx {
 /// Run the given closures as logical threads under the baton; returns when all have finished or
 /// the execution was aborted (deadlock / horizon).
 pub fn run_threads(ch: &Chooser, horizon: u64, bodies: Vec<(String, Box<dyn FnOnce(ThreadCtx) + Send>)>) -> ThreadRun {
+    run_threads_ext(ch, horizon, None, bodies)
+}
+
+/// Like `run_threads`, but threads may wait for wake-ups from threads outside the baton (actor
+/// threads, I/O workers): a state with no runnable thread only counts as deadlock after `grace`.
+pub fn run_threads_ext(
+    ch: &Chooser,
+    horizon: u64,
+    external_grace: Option<std::time::Duration>,
+    bodies: Vec<(String, Box<dyn FnOnce(ThreadCtx) + Send>)>,
+) -> ThreadRun {
     let n = bodies.len();
     let sh = Arc::new(Shared {
         m: Mutex::new(Sched {
             current: None,
             status: vec![Status::Runnable; n],
             woken: vec![false; n],
+            ext_woken: vec![false; n],
+            idling: false,
             names: bodies.iter().map(|b| b.0.clone()).collect(),
             abort: false,
             deadlock: None,
@@ -216,12 +327,14 @@ pub fn run_threads(ch: &Chooser, horizon: u64, bodies: Vec<(String, Box<dyn FnOn
         cv: Condvar::new(),
         ch: ch.clone(),
         horizon,
+        external_grace,
     });
     let mut handles = vec![];
     for (id, (_name, body)) in bodies.into_iter().enumerate() {
         let sh2 = sh.clone();
         handles.push(std::thread::spawn(move || {
             let ctx = ThreadCtx { sh: sh2.clone(), id };
+            UNDER_BATON.with(|b| b.set(true));
             let r = catch_unwind(AssertUnwindSafe(|| {
                 // wait for the first grant
                 let g = sh2.lock();
